@@ -329,6 +329,21 @@ func init() {
 	})
 	addItems("C05", func(tier string) []Item {
 		it := append(aliasItems(tier), keepsCaller(tier)...)
+		// corruption of the serialised bytes: every byte position of a frame with 2 FOpts bytes, FPort and 3 payload
+		// bytes (18 bytes), plus the untouched frame; thorough: a second shape
+		for ver := 0; ver <= 1; ver++ {
+			for mt := 0; mt < 4; mt++ {
+				for pos := -1; pos < 18; pos++ {
+					if tier != "thorough" && (ver+mt+pos+1)%2 == 1 && pos > 0 {
+						continue
+					}
+					it = append(it, Item{PkgKey: "root", Func: "VerifC05_WireCorruption", Shape: []int{ver, mt, 2, 2, 3, pos}})
+					if tier == "thorough" && pos < 13 {
+						it = append(it, Item{PkgKey: "root", Func: "VerifC05_WireCorruption", Shape: []int{ver, mt, 0, 1, 0, pos}})
+					}
+				}
+			}
+		}
 		for ver := 0; ver <= 1; ver++ {
 			for mt := 0; mt < 4; mt++ {
 				it = append(it, Item{PkgKey: "root", Func: "VerifC02_DownlinkAnyMType", Shape: []int{ver, mt}})
